@@ -91,7 +91,7 @@ Inv_Pack2 ==
         p2.out = Layout(dd.prog, dd.root, V2)
 
 Emit == Terminal =>
-    PrintT(<<"EMIT", ToJson([d |-> di, K |-> K, V |-> V, consistent |-> Consistent, mod |-> mod,
+    PrintT(<<"EMIT", ToJson([d |-> di, K |-> K, V |-> V, consistent |-> Consistent, mod |-> mod, eqexp |-> (mod = NoMod \/ V2 = V),
                              p |-> [st |-> p.st, out |-> p.out, err |-> p.err, writes |-> p.writes],
                              u |-> IF m.st = "none" THEN NoMach
                                    ELSE [st |-> m.st, cur |-> m.cur, result |-> m.result, err |-> m.err],
